@@ -108,7 +108,9 @@ CHECKS = {
              '(specOut_queries_irrelevant, query_independent: any two histories with the same set-cells subsequence answer a query alike - covers repetition, order and '
              'the API used), query_repeatable, query_pure (queries change neither overrides nor sizes), get_cells_eq_map, sheet_grid (exactly one entry per coordinate of '
              'the used range extended by the overrides, each equal to the single-cell query; extent_covers), addressing_equiv (A1-style / title addressing = numeric), '
-             'unknown_title_rejected. Tie B: query-heavy schedules against model and spec; permuted and doubled schedules, grid-vs-single, and _arguments / sizes snapshots on the real code.',
+             'unknown_title_rejected; query_independent_calls: the same for the public API with set_cells addresses as the caller writes them, accepted or rejected, with no side condition '
+             '(a rejected call changes no later answer and no size). Tie B: query-heavy schedules (rejected batches among them) against model and spec; permuted and doubled schedules, grid-vs-single, '
+             '_arguments / sizes snapshots, and a function-zoo order law (78 formulas of every function family on one executor in several orders = each alone on a fresh executor) on the real code.',
         note='Trusted: as C04; openpyxl column_index_from_string is an external (validated exhaustively in C14).',
         technique='Lean 4 proof (corollaries of the refinement theorem) + differential correspondence + schedule permutation laws on the real code', design='5/C08'),
     'C09': dict(
